@@ -20,6 +20,7 @@
 #include <signal.h>
 #include <fcntl.h>
 #include <dirent.h>
+#include <sys/prctl.h>
 #define private public
 #define protected public
 #include "CppUTest/TestHarness.h"
@@ -43,6 +44,8 @@ using namespace hl;
 
 // The C wrapper cpputest_malloc_location counts calls in a file-static int outside the detector's lock; that counter is
 // not detector state and not part of the property (DESIGN C10).  Only those two globals are excluded from TSan's reports.
+// frames printed as "#0 0x... in function file:line" so that the runner's crash summary names the racing functions
+extern "C" const char* __tsan_default_options() { return "stack_trace_format='    #%n %p %F %L'"; }
 extern "C" const char* __tsan_default_suppressions() { return "race:^malloc_count$\nrace:^malloc_out_of_memory_counter$\nrace:^countdown$\n"; }
 
 // ---------------------------------------------------------------- pre-emption injected around lock / unlock
@@ -307,7 +310,7 @@ static void scenario(Toks& t, double deadline)
     fflush(stdout); fflush(stderr);
     pid_t pid = fork();
     if (pid < 0) { perror("fork"); exit(3); }
-    if (pid == 0) { close(fd[0]); scenarioChild(t, fd[1]); }
+    if (pid == 0) { prctl(PR_SET_PDEATHSIG, SIGKILL); close(fd[0]); scenarioChild(t, fd[1]); }   // never outlive the harness
     close(fd[1]);
     // read until EOF (the observation can be longer than a pipe buffer) while watching the deadline
     std::string got; char buf[4096];
